@@ -696,13 +696,13 @@ def expand(item):
         # ValueError (a block without temperature points) must not have moved anything
         prev = obs.get(np_ - 1)
         if (out == "refused:ValueError" or (out == "refused:RuntimeError" and pred.get("why") == "nocorr")) and prev is not None:
-            now = observe(a, init)
-            for i, (b1, b0) in enumerate(zip(now["blocks"], prev["blocks"])):
-                if (b1["zb"], b1["zt"], b1["h"]) != (b0["zb"], b0["zt"], b0["h"]) or now["bounds"] != prev["bounds"]:
-                    viols.append(core.viol("c12/refusal-moved-mesh", "%s after %s: refused (%s) but block %d moved" % (_short(init), hs, out, i), case))
-                    break
-            temps_changed = any(c1["T"] != c0["T"] for b1, b0 in zip(now["blocks"], prev["blocks"]) for c1, c0 in zip(b1["comps"], b0["comps"]))
-            return {"canon": ["refused", hist], "full": None, "viols": viols, "ops": [], "out": out, "terminal": True, "partial_T": temps_changed}
+            # temperatures may have been assigned before the refusal (a component without correlation then sits at a
+            # temperature it cannot be evaluated at: its mass query raises) - only mesh and temperatures are read
+            mesh = [(float(b.p.zbottom), float(b.p.ztop)) for b in a]
+            if mesh != [(b0["zb"], b0["zt"]) for b0 in prev["blocks"]] or [float(x) for x in a.spatialGrid._bounds[2]] != prev["bounds"]:
+                viols.append(core.viol("c12/refusal-moved-mesh", "%s after %s: refused (%s) but the mesh moved" % (_short(init), hs, out), case))
+            temps_changed = any(float(c.temperatureInC) != c0["T"] for b, b0 in zip(a, prev["blocks"]) for c, c0 in zip(b, b0["comps"]))
+            return {"canon": ["refused", hist], "full": None, "viols": viols, "ops": [], "out": out, "terminal": True, "partial_T": temps_changed and out == "refused:ValueError"}
         if out == "refused:RuntimeError" and pred.get("why") == "multi" and prev is not None and observe(a, init) != prev:
             viols.append(core.viol("c12/refusal-changed-state", "%s after %s: ambiguous linkage refused with RuntimeError but the assembly changed" % (_short(init), hs), case))
         return {"canon": ["refused", hist], "full": None, "viols": viols, "ops": [], "out": out, "terminal": True}
